@@ -16,7 +16,11 @@ FAULTS = {
     "type": ["(car 5)", "(+ 1 'a)", "(vector-ref '(1) 0)", "(cdr '())", "(< 1 \"s\")"],
     "vectorIndex": ["(vector-ref (vector 1 2) 2)", "(vector-set! (vector 1) 5 0)", "(vector-ref (vector) -1)", "(vector-ref (vector 1 2 3) -1)",
                     "(vector-set! (vector 1 2 3) -2 0)", "(vector-ref (vector 1 2) -2)"],
-    "immutable": ["(vector-set! #(1 2) 0 9)", "(vector-set! '#(1) 0 9)"],
+    # literal vectors are constants WHEREVER they stand in a literal datum: alone, inside a quoted list, inside another literal vector
+    "immutable": ["(vector-set! #(1 2) 0 9)", "(vector-set! '#(1) 0 9)", "(vector-set! (car '(#(1 2) 3)) 0 9)",
+                  "(vector-set! (vector-ref #(#(1 2) #(3)) 1) 0 9)", "(vector-set! (vector-ref '#(#(1)) 0) 0 9)",
+                  "(vector-set! (car (cdr '(1 #(2) 3))) 0 9)", "(vector-set! (cdr '(1 . #(2))) 0 9)",
+                  "(vector-set! (vector-ref (car '(#(#(5))) ) 0) 0 9)"],
     "divZero": ["(/ 1 0)", "(/ 1/2 0)", "(floor-quotient 5 0)", "(/ 0)"],
 }
 FAULT_KIND = {"nonProcedure": "nonProcedure", "arity": "arity", "unbound": "unbound", "setUnbound": "unbound",
@@ -205,6 +209,24 @@ class Gen:
                     clauses.append("(%s %s)" % (b(), " ".join(self.seq(r.randrange(1, 5), e))))
             clauses.append("(else %s)" % e())
             return "(cond %s)" % " ".join(clauses)
+        if k == 3 and r.random() < 0.3:
+            # a case that dispatches on SYMBOLS, the data being names of syntactic keywords and of the bundled derived forms, in
+            # any position of a datum list: data are never code (not evaluated, not expanded), whatever they spell
+            words = ["begin", "let", "let*", "and", "or", "when", "unless", "cond", "case", "if", "lambda", "define", "quote",
+                     "set!", "else", "=>", "red", "blue"]
+            n = r.randrange(1, 4)
+            clauses, used = [], []
+            for i in range(n):
+                ws = [r.choice(words) for _ in range(r.randrange(1, 4))]
+                used += ws
+                if r.random() < 0.2:
+                    clauses.append("((%s) => %s)" % (" ".join(ws), self.tick("(lambda (z) (if (eqv? z 'begin) 1 2))")))
+                else:
+                    clauses.append("((%s) %s)" % (" ".join(ws), e()))
+            clauses.append("(else %s)" % e())
+            key = r.choice(used) if r.random() < 0.8 else r.choice(words)
+            self.note("case-on-keyword-symbols")
+            return "(case %s %s)" % (self.tick("'" + key), " ".join(clauses))
         if k == 3:
             n = r.randrange(1, 3)
             clauses = []
@@ -461,6 +483,143 @@ class Gen:
             else:
                 forms.append(self.int_(env, self.max_depth))
         return forms
+
+
+def closure_soup(self):
+    """CLOSURE SOUP: two or three factories, each returning a closure over its own parameters (and internal definitions);
+    several instances of each; every instance takes a step budget, two other instances and an accumulator, and hands over to
+    one of them - in tail position, under an operator, through apply, through a compound operator, from a let body - with
+    the roles swapped or not. Which code runs next and which frame it sees is decided by the VALUES passed around: instances
+    of one lambda differ only in their captured frame."""
+    r = self.rng
+    forms = []
+    sugar = self.spelling.get("define") != "lambda"
+    via_apply = self.spelling.get("call") == "apply"
+    insts = []
+    for fi in range(r.randrange(2, 4)):
+        mk = self.fresh("mk")
+        internal = r.choice(["", "(define step (+ k 1))", "(define (bump t) (+ t k))", "(define step (* k 2)) (define (bump t) (- t step))"])
+        has_step, has_bump = "(define step" in internal, "(define (bump" in internal
+        def small():
+            opts = ["(+ x k)", "(* 2 x)", "(- x k)", "(+ x 1)"]
+            if has_step: opts += ["(+ x step)", "(- x step)"]
+            if has_bump: opts += ["(bump x)"]
+            return self.tick(r.choice(opts))
+        base = r.choice(["(+ x k)", "(* x k)", "(- k x)"] + (["(bump x)"] if has_bump else []) + (["(+ x step)"] if has_step else []))
+        swap = r.choice(["g f", "f g", "f f", "g g"])
+        target = r.choice(["f", "g"])
+        shape = r.randrange(7)
+        args = "(- n 1) %s %s" % (swap, small())
+        if shape == 0:
+            rec = "(%s %s)" % (target, args)
+        elif shape == 1:
+            rec = "(+ k (%s %s))" % (target, args)
+        elif shape == 2:
+            rec = "(apply %s (list %s))" % (target, args)
+        elif shape == 3:
+            rec = "((if (< x %d) f g) %s)" % (r.randrange(0, 30), args)
+        elif shape == 4:
+            rec = "(let ((y %s)) (%s (- n 1) %s y))" % (small(), target, swap)
+        elif shape == 5:
+            rec = "(if (< x %d) (%s %s) (%s (- n 1) %s %s))" % (r.randrange(0, 30), target, args, "g" if target == "f" else "f", swap, small())
+        else:
+            rec = "((lambda (h) (h %s)) %s)" % (args, target)
+        lam = "(lambda (n f g x) (if (<= n 0) %s %s))" % (base, rec)
+        body = (internal + " " + lam).strip()
+        forms.append("(define (%s k) %s)" % (mk, body) if sugar else "(define %s (lambda (k) %s))" % (mk, body))
+        for _ in range(r.randrange(1, 3)):
+            nm = self.fresh("i")
+            forms.append("(define %s (%s %d))" % (nm, mk, r.randrange(1, 11)))
+            insts.append(nm)
+    for _ in range(r.randrange(2, 5)):
+        a, b, c = r.choice(insts), r.choice(insts), r.choice(insts)
+        n, x = r.randrange(0, 5), r.randrange(0, 9)
+        forms.append("(apply %s (list %d %s %s %d))" % (a, n, b, c, x) if via_apply else "(%s %d %s %s %d)" % (a, n, b, c, x))
+    return forms
+
+
+
+POOL = ["a", "b", "c"]
+
+def scope_soup(rng, depth=3):
+    """SCOPE SOUP: nested let / let* / directly applied lambda / bodies with internal definitions over a pool of THREE names, so
+    that names are shadowed and re-bound all the time (a let* binding a name twice, an initialiser mentioning the name it
+    re-binds, an inner definition of an outer name); at every level closures that read or assign a visible name are collected;
+    afterwards they are called in random order, several times. Which binding each closure means is decided by lexical scoping
+    alone."""
+    count = [0]
+    def closures(vis):
+        out = []
+        for _ in range(rng.randrange(1, 3)):
+            v = rng.choice(vis)
+            k = rng.randrange(1, 9)
+            out.append(rng.choice(["(lambda () %s)" % v, "(lambda () (set! %s (+ %s %d)) %s)" % (v, v, k, v),
+                                   "(lambda () (set! %s (* %s 2)) %s)" % (v, v, v)]))
+            count[0] += 1
+        return out
+    def init(vis):
+        if vis and rng.random() < 0.6:
+            v = rng.choice(vis)
+            return rng.choice(["(+ %s %d)" % (v, rng.randrange(1, 5)), v, "(* %s 10)" % v])
+        return str(rng.randrange(0, 9))
+    def expr(vis, d):
+        """an expression whose value is a LIST of closures"""
+        here = closures(vis) if vis else []
+        if d == 0:
+            return "(list %s)" % " ".join(here)
+        kind = rng.randrange(5)
+        n = rng.randrange(1, 4)
+        names = [rng.choice(POOL) for _ in range(n)]
+        if kind == 0:       # let: distinct names, initialisers see the OUTER bindings
+            names = list(dict.fromkeys(names))
+            binds = " ".join("(%s %s)" % (v, init(vis)) for v in names)
+            inner = expr(vis + names, d - 1)
+            return "(append (list %s) (let (%s) %s))" % (" ".join(here), binds, inner)
+        if kind == 1:       # let*: names may repeat; each initialiser sees the bindings to its left; closures BETWEEN bindings
+            parts, cur = [], list(vis)
+            for v in names:
+                parts.append("(%s %s)" % (v, init(cur)))
+                cur = cur + [v]
+                if rng.random() < 0.6:
+                    h = "h%d" % rng.randrange(1000)
+                    parts.append("(%s (list %s))" % (h, " ".join(closures(cur))))
+                    cur = cur + []          # h is not a pool name: never chosen by closures
+                    parts[-1] = parts[-1]
+                    here_h = h
+                    parts.append(None); parts[-1] = ("#", here_h)
+            binds, hs = [], []
+            for p in parts:
+                if isinstance(p, tuple): hs.append(p[1])
+                else: binds.append(p)
+            inner = expr(cur, d - 1)
+            return "(append (list %s) (let* (%s) (append %s %s)))" % (" ".join(here), " ".join(binds), " ".join(hs) if hs else "'()", inner)
+        if kind == 2:       # directly applied lambda
+            names = list(dict.fromkeys(names))
+            inner = expr(vis + names, d - 1)
+            return "(append (list %s) ((lambda (%s) %s) %s))" % (" ".join(here), " ".join(names), inner, " ".join(init(vis) for _ in names))
+        if kind == 3:       # a body with internal definitions (sequential, in one frame); names distinct, not re-defining a parameter
+            names = list(dict.fromkeys(names))
+            defs, cur = [], list(vis)
+            for v in names:
+                defs.append("(define %s %s)" % (v, init([x for x in cur if x not in names] or [])))
+                cur = cur + [v] if v not in cur else cur
+            inner = expr(vis + names, d - 1)
+            return "(append (list %s) ((lambda () %s %s)))" % (" ".join(here), " ".join(defs), inner)
+        # a procedure called twice: each call has its own frame
+        p = rng.choice(POOL)
+        inner = expr(vis + [p], d - 1)
+        return "(append (list %s) ((lambda (mk) (append (mk %s) (mk %s))) (lambda (%s) %s)))" % (
+            " ".join(here), init(vis), init(vis), p, inner)
+    forms = ["(define a 1)", "(define b 2)", "(define c 3)"]
+    forms.append("(define cs %s)" % expr(list(POOL), depth))
+    forms.append("(define (nth l i) (if (= i 0) (car l) (nth (cdr l) (- i 1))))")
+    forms.append("(define (len l) (if (null? l) 0 (+ 1 (len (cdr l)))))")
+    forms.append("(len cs)")
+    return forms, count
+
+def scope_calls(rng, n, k):
+    return ["((nth cs %d))" % rng.randrange(n) for _ in range(k)] + ["(list a b c)"]
+
 
 
 NUMERIC_OPS = {"+": (1, 3), "*": (1, 3), "-": (1, 3), "/": (1, 3), "max": (1, 3), "min": (1, 3), "=": (1, 3), "<": (1, 3), ">": (1, 3),
